@@ -628,7 +628,26 @@ func (q *TransferQueue) enqueueAndCollectRetriesFor(batch batch) (batch, error) 
 		}
 	}
 
+	// Each object of this batch must be accounted for exactly once, however
+	// the server's response lists them: "unanswered" holds the OIDs the
+	// response has not dealt with yet.
+	unanswered := make(map[string]struct{}, len(batch))
+	for _, t := range batch {
+		unanswered[t.Oid] = struct{}{}
+	}
+	failUnanswered := func() {
+		for _, t := range batch {
+			if _, ok := unanswered[t.Oid]; ok {
+				delete(unanswered, t.Oid)
+				q.errorc <- errors.New(tr.Tr.Get("[%v] The server did not return this object in its response.", t.Oid))
+				q.Skip(t.Size)
+				q.wait.Done()
+			}
+		}
+	}
+
 	if len(bRes.Objects) == 0 {
+		failUnanswered()
 		return next, nil
 	}
 
@@ -654,6 +673,22 @@ func (q *TransferQueue) enqueueAndCollectRetriesFor(batch batch) (batch, error) 
 	toTransfer := make([]*Transfer, 0, len(bRes.Objects))
 
 	for _, o := range bRes.Objects {
+		if _, ok := unanswered[o.Oid]; !ok {
+			// The server listed an object this batch did not ask
+			// about, or listed one more than once. Nothing is
+			// waiting on it, so the wait group is left alone.
+			q.trMutex.Lock()
+			_, known := q.transfers[o.Oid]
+			q.trMutex.Unlock()
+			if known {
+				tracerx.Printf("tq: ignoring repeated object %q in batch response", o.Oid)
+			} else {
+				q.errorc <- errors.New(tr.Tr.Get("[%v] The server returned an unknown OID.", o.Oid))
+			}
+			continue
+		}
+		delete(unanswered, o.Oid)
+
 		if o.Error != nil {
 			q.errorc <- errors.Wrapf(o.Error, "[%v] %v", o.Oid, o.Error.Message)
 			q.Skip(o.Size)
@@ -702,6 +737,8 @@ func (q *TransferQueue) enqueueAndCollectRetriesFor(batch batch) (batch, error) 
 			}
 		}
 	}
+
+	failUnanswered()
 
 	retries := q.addToAdapter(bRes.endpoint, toTransfer)
 	for t := range retries {
